@@ -595,4 +595,24 @@ theorem each_sv (sv : SV) (y : Bool) :
     | _ => simp [svToValue, wrapSV, G.each, G.toGoJQ, opEach, Mode.view, Mode.real, Val.ofJV]
 
 
+/-! ### jq's tostring -/
+
+theorem funcToString_eq (m : Mode) (ff : UInt64 → Option Bytes) (v : Val) :
+    funcToString m ff v = (match v.shallowM m with
+      | .str s => .ok (.str s)
+      | _ => funcToJSON m ff v) := rfl
+
+theorem shallowM_struct (fs : List (Bytes × DV)) :
+    (Val.dv (.struct fs)).shallowM Mode.real
+      = .obj (objOfList (objOfList (fs.map (fun f => (f.1, Val.dv f.2))))) := rfl
+
+theorem shallowM_array (es : List DV) :
+    (Val.dv (.array es)).shallowM Mode.real = .arr (es.map Val.dv) := rfl
+
+theorem shallowM_scalar (k : SKind) (sym : Option JV) (y : Bool) :
+    (Val.dv (.scalar k sym y)).shallowM Mode.real
+      = (match Val.ofJV (wrapScalar k sym).toGoJQ with
+        | .obj kvs => .obj (objOfList kvs)
+        | w => w) := rfl
+
 end Proofs.C08
